@@ -868,5 +868,19 @@ func (g *Gen) safety(class, label, goal string, p token.Pos) {
 	if class == "nil" && (g.con == nil || !g.con.Safety["nil"]) {
 		return
 	}
+	if g.con != nil && len(g.con.NoSafety) > 0 {
+		// `nosafety bounds:strslice#6`: one named safety obligation is switched off (not asserted, not assumed); the
+		// ordinal is still consumed so that the names of the others do not move
+		name := g.name + "/safety:" + class + ":" + label
+		key := class + ":" + label
+		if n := g.callNo["obl:"+name] + 1; n > 1 {
+			key = fmt.Sprintf("%s#%d", key, n)
+		}
+		if g.con.NoSafety[key] {
+			g.callNo["obl:"+name]++
+			g.assumedUsed["safety obligation switched off by the contract of "+g.name+": "+key+" ("+g.pos(p)+")"] = true
+			return
+		}
+	}
 	g.oblige("safety", class+":"+label, goal, g.pos(p), "", nil)
 }
